@@ -56,7 +56,8 @@ def append_step(prev_raw: str, n_prev_lines: int, new: str) -> bool:
     pre: len(prev_raw) <= 2 and 0 <= n_prev_lines <= 2 and len(new) <= 3
     post: _
     """
-    tick()
+    if tick():
+        return True
     if excluded("C15.append_step", prev_raw=prev_raw, n_prev_lines=n_prev_lines, new=new):
         return True
     prev_lines = ["L%d" % i for i in range(n_prev_lines)]
@@ -74,7 +75,8 @@ def append_step_reach(prev_raw: str, n_prev_lines: int, new: str) -> bool:
     pre: len(prev_raw) <= 2 and 0 <= n_prev_lines <= 2 and len(new) <= 3
     post: _
     """
-    tick()
+    if tick():
+        return True
     sb = _bare_sandbox(prev_raw, [])
     ctx = _Ctx()
     sb.append_output(new, ctx)
@@ -151,7 +153,8 @@ def history2(t0: str, t1: str) -> bool:
     pre: len(t0) <= 1 and len(t1) <= 1
     post: _
     """
-    tick()
+    if tick():
+        return True
     ops = _ops_from_part(2) or [0, 1]
     if excluded("C15.history2", ops=ops, t0=t0, t1=t1):
         return True
@@ -163,7 +166,8 @@ def history3(t0: str, t1: str, t2: str) -> bool:
     pre: len(t0) <= 1 and len(t1) <= 1 and len(t2) <= 1
     post: _
     """
-    tick()
+    if tick():
+        return True
     ops = _ops_from_part(3) or [0, 1, 0]
     if excluded("C15.history3", ops=ops, t0=t0, t1=t1, t2=t2):
         return True
@@ -177,7 +181,8 @@ def history_reach(t0: str, t1: str) -> bool:
     pre: len(t0) <= 1 and len(t1) <= 1
     post: _
     """
-    tick()
+    if tick():
+        return True
     ops = _ops_from_part(2) or [0, 1]
     sb = _fresh()
     _do(sb, ops[0], t0)
@@ -203,7 +208,8 @@ def input_fifo(queue: List[str], as_scalar: bool, keep: bool, extra: List[str], 
     pre: all(len(q) <= 1 for q in queue) and all(len(q) <= 1 for q in extra)
     post: _
     """
-    tick()
+    if tick():
+        return True
     sb = Sandbox.__new__(Sandbox)
     sb.inputs = ["stale"]
     sb._context = [_FakeCtx()]
@@ -240,7 +246,8 @@ def input_clear(queue: List[str], reads: int) -> bool:
     pre: len(queue) <= 3 and 0 <= reads <= 3 and all(len(q) <= 1 for q in queue)
     post: _
     """
-    tick()
+    if tick():
+        return True
     sb = Sandbox.__new__(Sandbox)
     sb.inputs = []
     sb._context = [_FakeCtx()]
@@ -266,7 +273,8 @@ def input_entry(queue: List[str], arg: List[str], reads: int) -> bool:
     pre: all(len(q) <= 1 for q in queue) and all(len(q) <= 1 for q in arg)
     post: _
     """
-    tick()
+    if tick():
+        return True
     entry, kind = [int(x) for x in (PART or "1,1").split(",")]
     sb = _fresh()
     sb.set_input(list(queue))
